@@ -446,3 +446,20 @@ def _net_run(pm, v):
     nts += len(s.local_buffer_adsb_ts) + len(s.local_buffer_commb_ts)
     return {"t": "net", "adsb": [list(bytes.fromhex(m)) for m in adsb], "commb": [list(bytes.fromhex(m)) for m in commb],
             "batches_sent": len(s.raw_pipe_in.sent), "ts_ok": 1 if nts == len(adsb) + len(commb) else 0}
+
+
+# ---- C18: uplink ----
+def _mk_uplink(name):
+    def f(pm, v):
+        from pyModeS.decoder import uplink
+        r = getattr(uplink, name)(hx(v))
+        if name == "uplink_fields":
+            if not isinstance(r, dict):
+                return enc.res(r)
+            return enc.res(tuple(r.get(k, "<missing>") for k in ("DI", "IC", "LOS", "PR", "RR", "RRS", "BDS")))
+        return enc.res(r)
+    return f
+
+
+for _n in ("uplink_icao", "uf", "bds", "pr", "ic", "lockout", "uplink_fields"):
+    CALLS["uplink." + _n] = _mk_uplink(_n)
